@@ -131,25 +131,27 @@ def deferredTermsPinned (lhs : ARef) : List Term → List Term
 
 def isBareRef (t : Term) : Bool := t.coef == .lit 1
 
+/-- the statement(s) emitted last by `AssignmentTrans.apply` (fixed) for the deferred increment terms -/
+def adjTail (lhs : ARef) (incs : List Term) : List Stmt :=
+  match incs with
+  | [] => [.assign lhs []]
+  | [t] => if isBareRef t && !t.neg then [] else [.assign lhs (deferredTerms lhs incs)]
+  | _ => [.assign lhs (deferredTerms lhs incs)]
+
 /-- `AssignmentTrans.apply` (fixed): list of statements replacing `lhs = Σ ts` -/
 def adjAssign (lhs : ARef) (ts : List Term) : List Stmt :=
-  let incs := ts.filter (isInc lhs)
-  let others := ts.filter (fun t => !isInc lhs t)
-  others.map (adjTerm lhs) ++
-    (match incs with
-     | [] => [.assign lhs []]
-     | [t] => if isBareRef t && !t.neg then [] else [.assign lhs (deferredTerms lhs incs)]
-     | _ => [.assign lhs (deferredTerms lhs incs)])
+  (ts.filter (fun t => !isInc lhs t)).map (adjTerm lhs) ++ adjTail lhs (ts.filter (isInc lhs))
+
+/-- as pinned: the bare-reference shortcut ignores the operator, the first operator is dropped -/
+def adjTailPinned (lhs : ARef) (incs : List Term) : List Stmt :=
+  match incs with
+  | [] => [.assign lhs []]
+  | [t] => if isBareRef t then [] else [.assign lhs (deferredTermsPinned lhs incs)]
+  | _ => [.assign lhs (deferredTermsPinned lhs incs)]
 
 /-- `AssignmentTrans.apply` as pinned (sign of the first deferred term dropped) -/
 def adjAssignPinned (lhs : ARef) (ts : List Term) : List Stmt :=
-  let incs := ts.filter (isInc lhs)
-  let others := ts.filter (fun t => !isInc lhs t)
-  others.map (adjTerm lhs) ++
-    (match incs with
-     | [] => [.assign lhs []]
-     | [t] => if isBareRef t then [] else [.assign lhs (deferredTermsPinned lhs incs)]
-     | _ => [.assign lhs (deferredTermsPinned lhs incs)])
+  (ts.filter (fun t => !isInc lhs t)).map (adjTerm lhs) ++ adjTailPinned lhs (ts.filter (isInc lhs))
 
 /-- `AdjointVisitor` on the active part of a schedule -/
 def adjoint : Stmt → Stmt
